@@ -175,6 +175,8 @@ where
                 self.exec_without_attrs(ctx, match_handler)
             }
             PushIfNotSelfClosing => {
+                #[cfg(feature = "_verif_hooks")]
+                crate::verif::hit(17);
                 let ctx = ctx.into_owned();
 
                 aux_info_request!(move |this, aux_info, match_handler| this
@@ -299,14 +301,20 @@ where
         if let Err(b) =
             self.try_exec_instr_set_without_attrs(self.program.entry_points.clone(), &mut ctx)
         {
+            #[cfg(feature = "_verif_hooks")]
+            crate::verif::hit(14);
             return Self::bailout(ctx, b, Self::recover_after_bailout_in_entry_points);
         }
 
         if let Err(b) = self.try_exec_jumps_without_attrs(&mut ctx) {
+            #[cfg(feature = "_verif_hooks")]
+            crate::verif::hit(15);
             return Self::bailout(ctx, b, Self::recover_after_bailout_in_jumps);
         }
 
         if let Err(b) = self.try_exec_hereditary_jumps_without_attrs(&mut ctx) {
+            #[cfg(feature = "_verif_hooks")]
+            crate::verif::hit(16);
             return Self::bailout(ctx, b, Self::recover_after_bailout_in_hereditary_jumps);
         }
 
